@@ -185,6 +185,38 @@ func lexGen(tier string, r *rng, emit func(string)) {
 			emit("l;" + hx(s))
 		}
 	}
+	// long tokens, each occurring several times in one input (interning must not depend on the length):
+	// strings, comments, numbers and identifiers of 10..5000 bytes
+	nLong := 300
+	if thorough {
+		nLong = 3000
+	}
+	for i := 0; i < nLong; i++ {
+		ln := []int{10, 33, 63, 64, 65, 66, 100, 127, 128, 129, 255, 256, 257, 1000, 1024, 4097}[r.intn(16)] + r.intn(3)
+		body := strings.Repeat(string("abcXYZ019_"[r.intn(10)]), ln)
+		var tok string
+		switch r.intn(6) {
+		case 0:
+			tok = "\"" + body + "\""
+		case 1:
+			tok = "`" + body + "`"
+		case 2:
+			tok = "/* " + body + " */"
+		case 3:
+			tok = "// " + body + "\n"
+		case 4:
+			tok = strings.Repeat(string("0123456789"[1+r.intn(9)]), ln)
+		default:
+			tok = "id" + body
+		}
+		other := "\"" + strings.Repeat("q", ln) + "\""
+		s := tok + " " + other + " " + tok + "\n" + tok + " x " + other
+		if r.intn(2) == 0 {
+			emit("f;" + hx(s))
+		} else {
+			emit("l;" + hx(s))
+		}
+	}
 	// the repo's own programs: whole, truncated, and with byte mutations
 	repo := os.Getenv("VERIF_REPO")
 	if repo == "" {
